@@ -180,8 +180,18 @@ def _parser_fn(kind, colname=None):
         df.loc[:, colname] = df[colname].abs().to_numpy()
         return df
 
+    def frame_drop(df):  # a dataframe-level parser may change the set of columns
+        return df.drop(columns=[colname]) if colname in df.columns else df
+
+    def frame_rename(df):
+        return df.rename(columns={colname: str(colname) + "_renamed"})
+
+    def frame_add(df):
+        return df.assign(**{str(colname) + "_added": 1})
+
     return {"abs": abs_pure, "abs_inplace": abs_inplace, "frame_abs": frame_abs_pure,
-            "frame_abs_inplace": frame_abs_inplace}[kind]
+            "frame_abs_inplace": frame_abs_inplace, "frame_drop": frame_drop, "frame_rename": frame_rename,
+            "frame_add": frame_add}[kind]
 
 
 def build_parsers(ps):
